@@ -130,6 +130,11 @@ def domain(updater):
             out.append((v, arrs_i))
         for v in arrs_f:
             out.append((v, arrs_f))
+    if updater in ('default', 'accumulate', 'set', 'null', 'vmc_user'):
+        # list values (accumulate concatenates; each update of a batch is
+        # one call of the updater, never one merged list)
+        out.append((lambda: ['x'], [lambda: ['y', 'z'], lambda: [],
+                                    lambda: ['w']]))
     if updater in ('set', 'null', 'vmc_user'):
         out.append((L('s'), [L('t'), L(None) if updater == 'set' else L('')]))
         out.append((L({'a': 1}), [L({'b': 2}), L({})]))
